@@ -178,6 +178,29 @@ var nativeFuncs = map[string]any{
 	"nat_add": func(a, b float64) float64 { return a + b },
 	"nat_len": func(s string) int { return len(s) },
 	"zz_last": func(args ...string) string { return strings.Join(args, "|") },
+	// functions that work in place on the byte slices they are given: an argument is a value, so what they do to
+	// it is theirs alone (it must not reach the Program's constants, a variable or the record)
+	"nat_rot": func(b []byte) []byte {
+		for i, c := range b {
+			switch {
+			case c >= 'a' && c <= 'z':
+				b[i] = 'a' + (c-'a'+13)%26
+			case c >= 'A' && c <= 'Z':
+				b[i] = 'A' + (c-'A'+13)%26
+			}
+		}
+		return b
+	},
+	"nat_fill": func(bs ...[]byte) int {
+		n := 0
+		for _, b := range bs {
+			for i := range b {
+				b[i] = '#'
+				n++
+			}
+		}
+		return n
+	},
 }
 
 func parseOnce(src string, withNative bool) string {
@@ -249,6 +272,7 @@ var templates = []string{
 	"{ print sprintf(\"%s-%s\", tolower($0), index($0, \"b\")) ; sum += $1 } END { print sum, sum / (NR ? NR : 1) }",
 	"BEGIN { while ((getline line) > 0) { nl++; if (line ~ /^#/) continue; last = line } print \"read\", nl, last }",
 	"{ print nat_add($1, 2), nat_len($0), zz_last($1, \"q\") }",
+	"BEGIN { lit%d = \"Literal-%d\" } { print nat_rot(\"Hello-%d\"), \"Hello-%d\", nat_rot(lit%d), lit%d, nat_rot($1), $1; print nat_fill(\"const%d\", lit%d, $0), \"const%d\", lit%d, $0 }",
 	// processes: every execution builds its own command lines from its own input
 	"NF { cmd = \"echo sh-\" NR \"-\" length($0) \"-\" NF; cmd | getline r; close(cmd); print \"got\", r }",
 	"NR <= 3 { system(\"echo sys-\" NR \"-\" length($0)) }",
